@@ -235,6 +235,8 @@ def run(cx, tier='quick'):
         rep.broken.append('expected the Hash struct and enum handlers, found %d' % n)
     from .c13 import include_own_scanners
     include_own_scanners(cx, facts, rep, ['::hash::'])
+    from .helpers import check_ident_or_index
+    check_ident_or_index(cx, rep)
     rep.floor('SUM-HASH', 2)
     rep.assumptions += ['::core::hash::Hash::hash of usize/fields feeds data determined by the value', 'union Hash is covered by C20']
     rep.not_decided += ['whether a user field type\'s Hash distinguishes values (premise of the property)']
